@@ -96,7 +96,7 @@ def main(run: core.Run) -> None:
             stats["validity_runs"] += 1
             if meta["init_inputs"]:
                 stats["override_runs"] += 1
-            d = R.judge_validity(m, api, opts, run.rng, meta["init_inputs"])
+            d = R.judge_validity(m, api, opts, run.rng, meta["init_inputs"], meta.get("overrides"))
             if d:
                 fid = R.known_in_stream(meta, open_ids)
                 if not fid and "C09-N3" in open_ids and R.classify_c09n3(m, d):
@@ -110,10 +110,16 @@ def main(run: core.Run) -> None:
                     continue
                 failures.append((m, meta, api, opts, d))
 
+    # ---- rules introducing a new domain, matching only inside subgraphs / functions / main graph
+    rule_failures = R.custom_rule_stream(run, stats)
+
     for m, meta in models[:6]:
         run.sample({"tags": meta["tags"], "opset": meta["opset"], "nodes": len(m.graph.node), "init_inputs": meta["init_inputs"]})
 
-    if failures:
+    if rule_failures:
+        desc, d = rule_failures[0]
+        run.violation({**desc, "others": len(rule_failures) - 1}, d)
+    elif failures:
         failures.sort(key=lambda t: len(t[0].graph.node))
         m, meta, api, opts, d = failures[0]
         run.violation({"model_b64": R.b64(m), "api": api, "opts": opts, "tags": meta["tags"], "others": len(failures) - 1}, d)
